@@ -9,8 +9,9 @@
    all_ops.go / scan.go at the level of what a client can observe.
 
    Every read that the Go code performs with TWO separate index look-ups (Get: the entry itself on
-   d.st, then the target of an unbound reference again on d.st) takes two states [s1] [s2]; the
-   sequential specification is the diagonal s1 = s2. *)
+   d.st, then the target of an unbound reference again on d.st; ZScan: one snapshot of the
+   sorted-set index, one of the key-value index) takes two states [s1] [s2]; the sequential
+   specification is the diagonal s1 = s2. *)
 From V Require Export Base.Res.
 
 Inductive entry :=
@@ -202,12 +203,14 @@ Definition zset (s : state) (set : N) : list (N * N * N) :=
   fold_left (fun a t => fold_left (fun a e => match e with
                                               | EZ st sc k at_ => if st =? set then zins (sc, k, at_) a else a
                                               | _ => a end) t a) s [].
-Definition spec_zscan (s : state) (set : N) (desc : bool) (limit since : N) : res (list (N * N * rentry)) :=
-  if slen s <? since then Err EIllegal else
-  let zs := zset s set in
+(* ZScan takes the sorted-set entries from a snapshot of the sorted-set index [s1] and resolves the
+   keys on a second snapshot, of the key-value index [s2] (sequential specification: s1 = s2) *)
+Definition spec_zscan (s1 s2 : state) (set : N) (desc : bool) (limit since : N) : res (list (N * N * rentry)) :=
+  if slen s1 <? since then Err EIllegal else
+  let zs := zset s1 set in
   let zs := if desc then rev zs else zs in
   collect (fun z => let '(sc, k, at_) := z in
-                    do e <- get_target s k at_; Ok (sc, at_, e)) (lim limit zs).
+                    do e <- get_target s2 k at_; Ok (sc, at_, e)) (lim limit zs).
 
 Fixpoint number_from (i : N) {A} (l : list A) : list (N * A) :=
   match l with [] => [] | a :: r => (i, a) :: number_from (i + 1) r end.
@@ -233,10 +236,19 @@ Definition spec_read2 (s1 s2 : state) (r : rop) : result :=
       match spec_scan s2 seek endk incs ince desc limit since with
       | Ok l => ResEntries l | Err c => ResErr c | Panic => ResErr EOther end
   | RZScan set desc limit since =>
-      match spec_zscan s2 set desc limit since with
+      match spec_zscan s1 s2 set desc limit since with
       | Ok l => ResZ l | Err c => ResErr c | Panic => ResErr EOther end
   | RHistory k offset desc limit since => spec_history s2 k offset desc limit since
   | RCount => ResCount (N.of_nat (length (all_keys s2)))
+  end.
+(* GetAll / Scan / ZScan read one index snapshot; with SinceTx > 0 the code may reuse an older
+   snapshot as long as it includes SinceTx (tbtree SnapshotMustIncludeTsWithRenewalPeriod) *)
+Definition snap_since (r : rop) : N :=
+  match r with
+  | RGetAll _ since => since
+  | RScan _ _ _ _ _ _ since => since
+  | RZScan _ _ _ since => since
+  | _ => 0
   end.
 (* the sequential specification of a read *)
 Definition spec_read (s : state) (r : rop) : result := spec_read2 s s r.
